@@ -192,7 +192,7 @@ def _record(stats, test, out, case):
         if out.kind not in stats.raised_examples:
             stats.raised_examples[out.kind] = {"test": test.name, "msg": out.detail, "case": out.sample}
     if out.status == "inconclusive":
-        stats.inconclusive[test.name] += 1
+        stats.inconclusive[f"{test.name}|{out.kind or 'oracle'}|{str(out.detail)[:60]}"] += 1
     if out.status == "ok" and out.nontrivial:
         key = out.key if out.key is not None else json.dumps(case.choices)
         stats.keys.add("%016x" % env.strhash(test.group + "|" + key))
@@ -461,6 +461,7 @@ def run_property(prop, tier, seed, only=None):
         "raised_buckets": dict(agg.raised.most_common(60)),
         "raised_examples": {k: v for k, v in list(agg.raised_examples.items())[:25]},
         "known_finding_hits": dict(known_hits),
+        "inconclusive_reasons": dict(agg.inconclusive.most_common(40)),
         "excluded_by_bucket": agg.excluded,
         "per_test": {k: dict(v) for k, v in sorted(agg.per_test.items())},
         "regress_replayed": n_regress,
